@@ -6,8 +6,9 @@ applications), composed by substitution, and  sup_[0,1] |G(F(x)) - x|  is bounde
      pairing clause: the two dispatch tables select mutually inverse formulas with matching constants;
  (2) implementation level: paired interval error propagation through the composition
      (engine/realerr.py) with the certified local error of powf/expf.
-(1) + (2) < budget is proved for every curve except PQ, whose bound (about 5.8e-4) stays above 5.7e-4:
-for PQ only the formula level is decided."""
+(1) + (2) < budget is proved for every curve except PQ, where the two suprema (6.1e-5 and 5.4e-4) are attained at different
+x; for PQ (and as a fallback for any curve) the joint bound sup |R(x) - x| is taken box by box, with R the enclosure of the
+COMPUTED round trip over the box: 5.53e-4 < 5.7e-4."""
 from __future__ import annotations
 from engine.check import Check
 from engine.values import Unsupported
@@ -24,8 +25,8 @@ def run(tier):
     ecache = {}
     budgets = {}
     H = realerr.Helpers(Ctx('K1', 'yuvxyb_math'))
-    # curves whose implementation-level bound is known not to close on the reference tree (reason in DESIGN.md 8.8)
-    NOT_CLOSING = {'PerceptualQuantizer': 'a-priori round-off of the log2 polynomial times |y| = 78.84 (twice) leaves 5.8e-4 > 5.7e-4'}
+    # curves decided by the joint bound only (the sum of the two separate suprema, 6.1e-5 + 5.4e-4, exceeds 5.7e-4; DESIGN.md 8.8)
+    JOINT = {'PerceptualQuantizer'}
     for t in STD_CURVES:
         base = f"C10/{t}"
         try:
@@ -52,21 +53,37 @@ def run(tier):
             else:
                 ck.ob(base, 'UNDECIDED', f"formula-level round-trip deviation between {lower:.3g} and {upper:.3g} (x = {arg!r}); budget {bud}")
             ck.sample(dict(curve=t, upper=upper, lower=lower, boxes=n))
+            # curves whose split bound (formula sup + implementation sup) is known not to close go straight to the joint bound
             if key not in ecache:
-                try:
-                    ecache[key] = realerr.sup_error(comp, fx, H, 0.0, 1.0, 0.7 * bud, max_boxes=(3000 if t not in NOT_CLOSING else 1500) if tier == 'quick' else 20000)
-                except Unsupported as ex:
-                    ecache[key] = (float('inf'), 0, None, str(ex))
+                if t in JOINT:
+                    ecache[key] = (float('inf'), 0, None, 'split bound skipped')
+                else:
+                    try:
+                        ecache[key] = realerr.sup_error(comp, fx, H, 0.0, 1.0, 0.7 * bud, max_boxes=3000 if tier == 'quick' else 20000)
+                    except Unsupported as ex:
+                        ecache[key] = (float('inf'), 0, None, str(ex))
             e_up, e_n, e_box, e_msg = ecache[key]
             ck.count('error_boxes', e_n)
             total = upper + e_up
             budgets[t] = dict(formula=upper, implementation=e_up, total=total, budget=bud)
             if total < bud:
                 ck.ob(base + '/budget', 'PROVED', f"|to_gamma(to_linear(x)) - x| <= {upper:.3g} (formula level) + {e_up:.3g} (rounding, libm, certified powf/expf error; {e_n} boxes) = {total:.4g} < {bud} for every x in [0,1]")
-            elif t in NOT_CLOSING:
-                ck.note(f"budget_not_decided/{t}", f"bound {total:.4g} vs budget {bud}: {NOT_CLOSING[t]}")
             else:
-                ck.ob(base + '/budget', 'UNDECIDED', f"bound {upper:.3g} + {e_up:.3g} = {total:.4g} does not stay below the budget {bud}" + (f" ({e_msg})" if e_msg else '') + (f"; worst box {e_box}" if e_box else ''))
+                # joint bound: the enclosure of the COMPUTED round trip over a box minus the box itself (signed), so that the
+                # formula-level deviation and the implementation error are not added in absolute value at different x
+                jk = ('joint', key)
+                if jk not in ecache:
+                    try:
+                        ecache[jk] = realerr.sup_error(comp, fx, H, 0.0, 1.0, 0.97 * bud, max_boxes=20000 if tier == 'quick' else 200000, identity=True)
+                    except Unsupported as ex:
+                        ecache[jk] = (float('inf'), 0, None, str(ex))
+                j_up, j_n, j_box, j_msg = ecache[jk]
+                ck.count('error_boxes', j_n)
+                budgets[t] = dict(formula=upper, joint=j_up, budget=bud)
+                if j_up < bud:
+                    ck.ob(base + '/budget', 'PROVED', f"|computed to_gamma(to_linear(x)) - x| <= {j_up:.4g} < {bud} for every x in [0,1] (enclosure of the computed value per box minus the box, {j_n} boxes; rounding, libm, certified powf/expf error)")
+                else:
+                    ck.ob(base + '/budget', 'UNDECIDED', f"split bound {upper:.3g} + {e_up:.3g} and joint bound {j_up:.4g} do not stay below the budget {bud}" + (f" ({j_msg or e_msg})" if (j_msg or e_msg) else '') + (f"; worst box {j_box or e_box}" if (j_box or e_box) else ''))
             from .c03 import real_witness
             w = real_witness(ctx, comp, fx, lambda iv: iv, bud, 129 if tier == 'quick' else 1025)
             if w:
@@ -75,7 +92,6 @@ def run(tier):
             ck.ob(base, 'UNDECIDED', f"analysis lost: {ex}")
     ck.floor('curves', 14)
     ck.note('budgets', budgets)
-    ck.note('not_decided', ['PQ round trip within 5.7e-4 at implementation level (formula level decided)'])
     ck.floor('error_boxes', 1)
     ck.assumptions += ['A-libm: f32 ln / log10 of the target libm within 1 ulp; sqrt correctly rounded', 'host libm within 1 ulp', 'default build (K1)']
     return ck.finish()
